@@ -542,7 +542,9 @@ func init() {
 					}
 					for miss := -1; miss < n; miss++ { // ordinal whose pod is missing (replaced by a stray pod of another name)
 						permutations(n, func(perm []int) {
-							for listMode := 0; listMode < 3; listMode++ {
+							for listMode := 0; listMode < 4; listMode++ {
+								// listMode 3: pods of another set whose name is "<this set>-b" (another replica of the
+								// same deployment, same labels) are listed after the own ones, one per ordinal;
 								// listMode 0: a missing pod is replaced in the list by a stray pod of a higher ordinal;
 								// 1: it is simply absent (deleted, not yet re-created); 2: a pod of another owner that
 								// carries the same labels is listed in addition
@@ -584,7 +586,16 @@ func init() {
 									f.Status.Conditions = []corev1.PodCondition{{Type: corev1.PodReady, Status: corev1.ConditionTrue}}
 									listed = append([]corev1.Pod{f}, listed...)
 								}
-								cs := map[string]interface{}{"pods": n, "ipmask": ipmask, "readymask": readymask, "missing": miss, "order": append([]int{}, perm...), "list_mode": []string{"stray-higher-ordinal", "absent", "foreign-pod-listed"}[listMode]}
+								if listMode == 3 {
+									for i := 0; i < n; i++ {
+										f := corev1.Pod{}
+										f.Name = fmt.Sprintf("rep1-b-%d", i)
+										f.Status.PodIP = fmt.Sprintf("10.9.8.%d", i+1)
+										f.Status.Conditions = []corev1.PodCondition{{Type: corev1.PodReady, Status: corev1.ConditionTrue}}
+										listed = append(listed, f)
+									}
+								}
+								cs := map[string]interface{}{"pods": n, "ipmask": ipmask, "readymask": readymask, "missing": miss, "order": append([]int{}, perm...), "list_mode": []string{"stray-higher-ordinal", "absent", "foreign-pod-listed", "pods-of-set-named-with-suffix-listed"}[listMode]}
 								sts := c18Sts("rep1", int32(n), 1, [3]int32{int32(n), int32(n), int32(n)})
 								m := k8sshard.VerifNewShardManager(fake.NewSimpleClientset(), sts, 8080, false, c18Log(), func(lb map[string]string) (*corev1.PodList, error) {
 									return &corev1.PodList{Items: listed}, nil
@@ -688,40 +699,43 @@ func init() {
 		for rp := int32(0); rp <= 2; rp++ {
 			for up := int32(0); up <= 2; up++ {
 				for rd := int32(0); rd <= 2; rd++ {
-					idx++
-					if !c.Mine(idx) {
-						continue
-					}
-					cli := fake.NewSimpleClientset()
-					a := c18Sts("a", rp, 1, [3]int32{rp, up, rd})
-					b := c18Sts("b", 1, 1, [3]int32{1, 1, 1})
-					cli.AppsV1().StatefulSets(c18NS).Create(context.TODO(), a, metav1.CreateOptions{})
-					cli.AppsV1().StatefulSets(c18NS).Create(context.TODO(), b, metav1.CreateOptions{})
-					rm := k8sshard.NewReplicasManager(cli, c18NS, "k8s-app=prometheus", 8080, false, c18Log())
-					ms, err := rm.Replicas()
-					r.States++
-					r.Transitions++
-					cs := map[string]interface{}{"status": []int32{rp, up, rd}}
-					if err != nil {
-						viol("C18:replicas-error", "replicas-manager", err.Error(), cs)
-						continue
-					}
-					// identify managers by scaling them to a marker value
-					hasA := false
-					for _, m := range ms {
-						_ = m.ChangeScale(7)
-					}
-					ga, _ := cli.AppsV1().StatefulSets(c18NS).Get(context.TODO(), "a", metav1.GetOptions{})
-					gb, _ := cli.AppsV1().StatefulSets(c18NS).Get(context.TODO(), "b", metav1.GetOptions{})
-					hasA = *ga.Spec.Replicas == 7
-					if *gb.Spec.Replicas != 7 {
-						viol("C18:healthy-set-skipped", "replicas-manager", "a fully updated and ready StatefulSet was not returned", cs)
-					}
-					if up != rp && hasA {
-						viol("C18:rolling-update-coordinated", "replicas-manager", fmt.Sprintf("StatefulSet with replicas=%d updatedReplicas=%d was returned for coordination", rp, up), cs)
-					}
-					if up == rp && rd == rp && !hasA {
-						viol("C18:ready-set-skipped", "replicas-manager", fmt.Sprintf("StatefulSet with status %v was skipped", []int32{rp, up, rd}), cs)
+					for _, strategy := range []appsv1.StatefulSetUpdateStrategyType{"", appsv1.RollingUpdateStatefulSetStrategyType, appsv1.OnDeleteStatefulSetStrategyType} {
+						idx++
+						if !c.Mine(idx) {
+							continue
+						}
+						cli := fake.NewSimpleClientset()
+						a := c18Sts("a", rp, 1, [3]int32{rp, up, rd})
+						a.Spec.UpdateStrategy.Type = strategy
+						b := c18Sts("b", 1, 1, [3]int32{1, 1, 1})
+						cli.AppsV1().StatefulSets(c18NS).Create(context.TODO(), a, metav1.CreateOptions{})
+						cli.AppsV1().StatefulSets(c18NS).Create(context.TODO(), b, metav1.CreateOptions{})
+						rm := k8sshard.NewReplicasManager(cli, c18NS, "k8s-app=prometheus", 8080, false, c18Log())
+						ms, err := rm.Replicas()
+						r.States++
+						r.Transitions++
+						cs := map[string]interface{}{"status": []int32{rp, up, rd}, "update_strategy": string(strategy)}
+						if err != nil {
+							viol("C18:replicas-error", "replicas-manager", err.Error(), cs)
+							continue
+						}
+						// identify managers by scaling them to a marker value
+						hasA := false
+						for _, m := range ms {
+							_ = m.ChangeScale(7)
+						}
+						ga, _ := cli.AppsV1().StatefulSets(c18NS).Get(context.TODO(), "a", metav1.GetOptions{})
+						gb, _ := cli.AppsV1().StatefulSets(c18NS).Get(context.TODO(), "b", metav1.GetOptions{})
+						hasA = *ga.Spec.Replicas == 7
+						if *gb.Spec.Replicas != 7 {
+							viol("C18:healthy-set-skipped", "replicas-manager", "a fully updated and ready StatefulSet was not returned", cs)
+						}
+						if up != rp && hasA {
+							viol("C18:rolling-update-coordinated", "replicas-manager", fmt.Sprintf("StatefulSet with replicas=%d updatedReplicas=%d was returned for coordination", rp, up), cs)
+						}
+						if up == rp && rd == rp && !hasA {
+							viol("C18:ready-set-skipped", "replicas-manager", fmt.Sprintf("StatefulSet with status %v was skipped", []int32{rp, up, rd}), cs)
+						}
 					}
 				}
 			}
